@@ -225,8 +225,47 @@ func (c *Ctx) havocResult(a *Activation, t types.Type, st *State, name string) V
 }
 
 // ---------- encoding/json (A-JSON) ----------
+//
+// The content of a byte string as JSON is a ghost function of the byte slice (array, offset, length), relative to the
+// Go type it is decoded into: kind 0 = syntactically invalid, 1 = well-formed but not decodable into that type,
+// 2 = null, 3 = a value of that type (array resp. object). json.Marshal attaches the content to its fresh result,
+// json.Unmarshal reads it. Assumed (A-JSON): Marshal never fails on the element types used ("JSON-representable"),
+// decoding is the inverse of encoding, a syntax error is detected before anything is written, a type error may leave
+// the target partially written, null yields nil, arrays are appended into the slice after resetting its length
+// (reusing capacity), objects are merged into a non-nil map.
 
-// json.Marshal(x): pure, allocates a fresh []byte; the text is an uninterpreted function of the abstract content.
+func (x *Exec) jsonFn(name string, sorts []string, res string) string {
+	full := "json_" + name + "_" + sanitize(strings.Join(sorts, "_"))
+	x.ctx.DeclFun(full, append([]string{"Int", "Int", "Int"}, sortsTail(name, sorts)...), res)
+	return full
+}
+
+func sortsTail(name string, sorts []string) []string {
+	switch name {
+	case "akind", "alen", "okind", "ocard":
+		return nil
+	case "aelem":
+		return []string{"Int"}
+	case "ohas", "oval":
+		return []string{sorts[0]}
+	}
+	return nil
+}
+
+func (x *Exec) jsonArrKind(b Val, es string) string { return app(x.jsonFn("akind", []string{es}, "Int"), b.Arr, b.Off, b.Len) }
+func (x *Exec) jsonArrLen(b Val, es string) string  { return app(x.jsonFn("alen", []string{es}, "Int"), b.Arr, b.Off, b.Len) }
+func (x *Exec) jsonArrElem(b Val, es string, i string) string {
+	return app(x.jsonFn("aelem", []string{es}, es), b.Arr, b.Off, b.Len, i)
+}
+func (x *Exec) jsonObjKind(b Val, ks, vs string) string { return app(x.jsonFn("okind", []string{ks, vs}, "Int"), b.Arr, b.Off, b.Len) }
+func (x *Exec) jsonObjCard(b Val, ks, vs string) string { return app(x.jsonFn("ocard", []string{ks, vs}, "Int"), b.Arr, b.Off, b.Len) }
+func (x *Exec) jsonObjHas(b Val, ks, vs string, k string) string {
+	return app(x.jsonFn("ohas", []string{ks, vs}, "Bool"), b.Arr, b.Off, b.Len, k)
+}
+func (x *Exec) jsonObjVal(b Val, ks, vs string, k string) string {
+	return app(x.jsonFn("oval", []string{ks, vs}, vs), b.Arr, b.Off, b.Len, k)
+}
+
 func (a *Activation) jsonMarshal(ins *ssa.Call, args []Val, st *State, rc *string) Val {
 	x := a.x
 	c := x.ctx
@@ -234,96 +273,172 @@ func (a *Activation) jsonMarshal(ins *ssa.Call, args []Val, st *State, rc *strin
 	bytesT := rt.At(0).Type()
 	errT := rt.At(1).Type()
 	out := a.freshSlice(bytesT, st, ins.Name()+"_bytes")
-	err := scalar(errT, c.Fresh(ins.Name()+"_err", "Int"))
-	// what was marshalled: remember the boxed value for contracts (jsonOf)
+	c.Assume(not(eq(out.Arr, "0")))
+	err := scalar(errT, "0") // A-JSON: the element types used are JSON-representable
 	boxed := args[0]
-	if len(boxed.Fs) == 1 {
-		st.gvars["marshalled"] = boxed.Fs[0]
+	if len(boxed.Fs) != 1 {
+		unsup("json.Marshal of an untracked value")
+	}
+	v := boxed.Fs[0]
+	if v.K == KLoc {
+		// pointer to a map/slice variable
+		v = a.load(v, st, *rc, ins.Pos())
+	}
+	switch {
+	case v.K == KSlice:
+		et := v.T.Underlying().(*types.Slice).Elem()
+		es := c.sortOf(et)
+		c.Assume(eq(x.jsonArrKind(out, es), ite(eq(v.Arr, "0"), "2", "3")))
+		c.Assume(implies(not(eq(v.Arr, "0")), eq(x.jsonArrLen(out, es), v.Len)))
+		i := c.boundVar("i")
+		c.Assume(fmt.Sprintf("(forall ((%s Int)) (! (=> (and (<= 0 %s) (< %s %s)) (= %s %s)) :pattern (%s)))", i, i, i, v.Len,
+			x.jsonArrElem(out, es, i), x.loadElem(st, et, v.Arr, x.eidx(v.Off, i)).S, x.jsonArrElem(out, es, i)))
+	case v.K == KScalar && v.T != nil && isMapType(v.T):
+		mt := v.T.Underlying().(*types.Map)
+		mk, ks, vs := x.mapSortsOf(mt)
+		c.Assume(eq(x.jsonObjKind(out, ks, vs), ite(eq(v.S, "0"), "2", "3")))
+		c.Assume(implies(not(eq(v.S, "0")), eq(x.jsonObjCard(out, ks, vs), x.mapLen(st, v.S))))
+		k := c.boundVar("k")
+		dom := sel(sel(x.mdomArr(st, mk), v.S), k)
+		c.Assume(fmt.Sprintf("(forall ((%s %s)) (! (= %s %s) :pattern (%s)))", k, ks, x.jsonObjHas(out, ks, vs, k), and(not(eq(v.S, "0")), dom), x.jsonObjHas(out, ks, vs, k)))
+		if vs != "Unit" {
+			val := sel(sel(x.mvalArr(st, mk), v.S), k)
+			c.Assume(fmt.Sprintf("(forall ((%s %s)) (! (=> %s (= %s %s)) :pattern (%s)))", k, ks, and(not(eq(v.S, "0")), dom), x.jsonObjVal(out, ks, vs, k), val, x.jsonObjVal(out, ks, vs, k)))
+		}
+	default:
+		x.note("json.Marshal of " + describe(v) + ": content opaque")
 	}
 	return Val{K: KTuple, T: rt, Fs: []Val{out, err}}
 }
 
-// json.Unmarshal(data, &v): on error with a syntactically invalid document nothing is modified; a type error may leave
-// the target partially updated; on success the target holds the decoded value (A-JSON, §4 C11/C12 of DESIGN.md).
+func isMapType(t types.Type) bool {
+	if isTypeParam(t) {
+		return false
+	}
+	_, ok := t.Underlying().(*types.Map)
+	return ok
+}
+
 func (a *Activation) jsonUnmarshal(ins *ssa.Call, args []Val, st *State, rc *string) Val {
 	x := a.x
 	c := x.ctx
 	errT := a.typ(ins.Type())
-	err := c.Fresh(ins.Name()+"_err", "Int")
+	data := args[0]
+	if data.K != KSlice {
+		unsup("json.Unmarshal of non-slice data")
+	}
 	target := args[1]
 	if len(target.Fs) != 1 {
 		unsup("json.Unmarshal target not tracked")
 	}
 	p := target.Fs[0]
-	synErr := c.Fresh(ins.Name()+"_syntaxerr", "Bool") // invalid JSON: detected before anything is written
-	c.Assume(implies(synErr, not(eq(err, "0"))))
-	st.gvars["unmarshal_syntaxerr"] = boolVal(synErr)
-	switch p.K {
-	case KLoc:
-		// pointer to a slice or map variable / field
-		old := a.load(p, st, *rc, ins.Pos())
-		pt := p.Loc.T
-		switch u := pt.Underlying().(type) {
-		case *types.Slice:
-			et := u.Elem()
-			srt := c.sortOf(et)
-			nv := c.freshVal(ins.Name()+"_dec", pt)
-			// decoded slice: reuses the old backing array when it fits, otherwise a fresh one; null gives nil
-			fresh := app("+", st.alloc, "1")
-			c.Assume(or(eq(nv.Arr, old.Arr), eq(nv.Arr, fresh), eq(nv.Arr, "0")))
-			c.Assume(and(eq(nv.Off, ite(eq(nv.Arr, old.Arr), old.Off, "0")), app("<=", "0", nv.Len), app("<=", nv.Len, nv.Cap), implies(eq(nv.Arr, "0"), eq(nv.Cap, "0")),
-				implies(and(eq(nv.Arr, old.Arr), not(eq(nv.Arr, "0"))), eq(nv.Cap, old.Cap))))
-			// elements: the target array's contents are havocked (decoded values or partial decode)
-			oldE := x.elemsArr(st, srt)
-			row := c.Fresh("row", arrSort("Int", srt))
-			wrote := not(synErr)
-			if p.Loc.K != LLocal {
-				a.frameElemsIf(old.Arr, and(wrote, not(eq(old.Arr, "0"))), st, *rc, ins.Pos())
-			}
-			st.elems[srt] = c.Define("E_"+srt, arrSort("Int", arrSort("Int", srt)), ite(wrote, store(oldE, ite(eq(nv.Arr, "0"), fresh, nv.Arr), row), oldE))
-			st.alloc = c.Define("alloc", "Int", ite(and(wrote, eq(nv.Arr, fresh)), fresh, st.alloc))
-			res := c.iteVal(wrote, nv, old)
-			a.storeCond(ins, p, x.nameVal(ins.Name()+"_tgt", res), st, *rc, wrote)
-			st.gvars["unmarshalled"] = nv
-		case *types.Map:
-			mt := u
-			mk, ks, vs := x.mapSortsOf(mt)
-			// null: target becomes nil; object: decoded into the existing map when non-nil (merge), else a fresh map
-			fresh := app("+", st.alloc, "1")
-			nm := c.Fresh(ins.Name()+"_map", "Int")
-			c.Assume(or(eq(nm, "0"), and(not(eq(old.S, "0")), eq(nm, old.S)), and(eq(old.S, "0"), eq(nm, fresh))))
-			wrote := not(synErr)
-			d, v, l := x.mdomArr(st, mk), x.mvalArr(st, mk), x.mlenArr(st)
-			nd := c.Fresh("decdom", arrSort(ks, "Bool"))
-			nvv := c.Fresh("decval", arrSort(ks, vs))
-			nl := c.Fresh("declen", "Int")
-			c.Assume(app(">=", nl, "0"))
-			// merge semantics: keys present before stay present when decoding into a live map (on success)
-			kk := c.boundVar("k")
-			c.Assume(implies(and(eq(err, "0"), eq(nm, old.S), not(eq(nm, "0"))), fmt.Sprintf("(forall ((%s %s)) (=> (select (select %s %s) %s) (select %s %s)))", kk, ks, d, old.S, kk, nd, kk)))
-			tgt := ite(eq(nm, "0"), fresh, nm)
-			if p.Loc.K != LLocal {
-				a.frameMapIf(old.S, and(wrote, not(eq(old.S, "0")), eq(nm, old.S)), st, *rc, ins.Pos())
-			}
-			st.mdom[mk] = c.Define("MD", arrSort("Int", arrSort(ks, "Bool")), ite(wrote, store(d, tgt, nd), d))
-			if vs != "Unit" {
-				st.mval[mk] = c.Define("MV", arrSort("Int", arrSort(ks, vs)), ite(wrote, store(v, tgt, nvv), v))
-			}
-			st.mlen = c.Define("ML", arrSort("Int", "Int"), ite(wrote, store(l, tgt, nl), l))
-			st.alloc = c.Define("alloc", "Int", ite(and(wrote, eq(nm, fresh)), fresh, st.alloc))
-			res := scalar(pt, ite(wrote, nm, old.S))
-			a.storeCond(ins, p, x.nameVal(ins.Name()+"_tgt", res), st, *rc, wrote)
-			st.gvars["unmarshalled"] = scalar(pt, nm)
-		default:
-			unsup("json.Unmarshal into %s", typeStr(pt))
-		}
-	default:
+	if p.K != KLoc {
 		unsup("json.Unmarshal target %s", describe(p))
 	}
+	old := a.load(p, st, *rc, ins.Pos())
+	pt := p.Loc.T
+	name := ins.Name()
+	var kind string
+	switch u := pt.Underlying().(type) {
+	case *types.Slice:
+		et := u.Elem()
+		es := c.sortOf(et)
+		kind = c.Define(name+"_kind", "Int", x.jsonArrKind(data, es))
+		c.Assume(and(app("<=", "0", kind), app("<=", kind, "3")))
+		n := x.jsonArrLen(data, es)
+		c.Assume(app(">=", n, "0"))
+		wrote := app("=", kind, "1") // partial decode
+		ok3 := eq(kind, "3")
+		// result slice for kind 3: reuse the backing array when it fits (and exists), else a fresh one
+		fresh := app("+", st.alloc, "1")
+		reuse := and(not(eq(old.Arr, "0")), app("<=", n, old.Cap))
+		nv := c.freshVal(name+"_dec", pt)
+		c.Assume(implies(ok3, and(eq(nv.Len, n), eq(nv.Arr, ite(reuse, old.Arr, fresh)), eq(nv.Off, ite(reuse, old.Off, "0")), app("<=", nv.Len, nv.Cap), implies(reuse, eq(nv.Cap, old.Cap)))))
+		c.Assume(implies(eq(kind, "2"), and(eq(nv.Arr, "0"), eq(nv.Len, "0"), eq(nv.Cap, "0"), eq(nv.Off, "0"))))
+		// type error: same array or a fresh one, arbitrary content
+		c.Assume(implies(wrote, and(or(eq(nv.Arr, old.Arr), eq(nv.Arr, fresh)), app("<=", "0", nv.Len), app("<=", nv.Len, nv.Cap), eq(nv.Off, ite(eq(nv.Arr, old.Arr), old.Off, "0")))))
+		c.Assume(x.typeInv(nv, fresh))
+		oldE := x.elemsArr(st, es)
+		row := c.Fresh("row", arrSort("Int", es))
+		i := c.boundVar("i")
+		// decoded elements (kind 3); elements of the old array beyond the new length keep their values when reused
+		c.Assume(implies(ok3, fmt.Sprintf("(forall ((%s Int)) (! (= (select %s %s) %s) :pattern ((select %s %s))))", i, row, i,
+			ite(and(app("<=", nv.Off, i), app("<", i, app("+", nv.Off, n))), x.jsonArrElem(data, es, app("-", i, nv.Off)), ite(reuse, sel(sel(oldE, old.Arr), i), c.zero(et).S)), row, i)))
+		// the same fact oriented from the document side (pattern on the document's element)
+		c.Assume(implies(ok3, fmt.Sprintf("(forall ((%s Int)) (! (=> (and (<= 0 %s) (< %s %s)) (= (select %s (+ %s %s)) %s)) :pattern (%s)))", i, i, i, n, row, nv.Off, i,
+			x.jsonArrElem(data, es, i), x.jsonArrElem(data, es, i))))
+		changes := or(ok3, wrote)
+		tgtArr := ite(eq(nv.Arr, "0"), fresh, nv.Arr)
+		if p.Loc.K != LLocal {
+			a.frameElemsIf(old.Arr, and(changes, not(eq(old.Arr, "0")), eq(nv.Arr, old.Arr)), st, *rc, ins.Pos())
+		}
+		st.elems[es] = c.Define("E_"+es, arrSort("Int", arrSort("Int", es)), ite(changes, store(oldE, tgtArr, row), oldE))
+		// ... and in the shape in which contracts read the decoded slice
+		c.Assume(implies(ok3, fmt.Sprintf("(forall ((%s Int)) (! (=> (and (<= 0 %s) (< %s %s)) (= %s %s)) :pattern (%s)))", i, i, i, n,
+			sel(sel(st.elems[es], nv.Arr), x.eidx(nv.Off, i)), x.jsonArrElem(data, es, i), x.jsonArrElem(data, es, i))))
+		st.alloc = c.Define("alloc", "Int", ite(and(changes, eq(nv.Arr, fresh)), fresh, st.alloc))
+		res := c.iteVal(eq(kind, "0"), old, nv)
+		a.storeCond(ins, p, x.nameVal(name+"_tgt", res), st, *rc, not(eq(kind, "0")))
+	case *types.Map:
+		mt := u
+		mk, ks, vs := x.mapSortsOf(mt)
+		kind = c.Define(name+"_kind", "Int", x.jsonObjKind(data, ks, vs))
+		c.Assume(and(app("<=", "0", kind), app("<=", kind, "3")))
+		card := x.jsonObjCard(data, ks, vs)
+		c.Assume(app(">=", card, "0"))
+		fresh := app("+", st.alloc, "1")
+		ok3 := eq(kind, "3")
+		wrote := eq(kind, "1")
+		// kind 3: decode into the existing map if non-nil (merge), else into a fresh one; kind 1: partial merge
+		nm := c.Define(name+"_map", "Int", ite(eq(kind, "2"), "0", ite(eq(old.S, "0"), ite(eq(kind, "0"), "0", fresh), old.S)))
+		d, v, l := x.mdomArr(st, mk), x.mvalArr(st, mk), x.mlenArr(st)
+		nd := c.Fresh("decdom", arrSort(ks, "Bool"))
+		nvv := c.Fresh("decval", arrSort(ks, vs))
+		nl := c.Fresh("declen", "Int")
+		c.Assume(app(">=", nl, "0"))
+		k := c.boundVar("k")
+		oldDom := and(not(eq(old.S, "0")), sel(sel(d, old.S), k))
+		inDoc := x.jsonObjHas(data, ks, vs, k)
+		c.Assume(implies(ok3, fmt.Sprintf("(forall ((%s %s)) (! (= (select %s %s) %s) :pattern ((select %s %s))))", k, ks, nd, k, or(oldDom, inDoc), nd, k)))
+		if vs != "Unit" {
+			c.Assume(implies(ok3, fmt.Sprintf("(forall ((%s %s)) (! (= (select %s %s) %s) :pattern ((select %s %s))))", k, ks, nvv, k,
+				ite(inDoc, x.jsonObjVal(data, ks, vs, k), sel(sel(v, old.S), k)), nvv, k)))
+		}
+		// cardinality: a fresh map holds exactly the document's keys; merging can only grow the map
+		c.Assume(implies(and(ok3, eq(old.S, "0")), eq(nl, card)))
+		c.Assume(implies(and(ok3, not(eq(old.S, "0"))), and(app(">=", nl, x.mapLen(st, old.S)), app(">=", nl, card))))
+		// partial merge keeps old keys
+		c.Assume(implies(wrote, fmt.Sprintf("(forall ((%s %s)) (=> %s (select %s %s)))", k, ks, oldDom, nd, k)))
+		changes := or(ok3, wrote)
+		tgt := ite(eq(nm, "0"), fresh, nm)
+		if p.Loc.K != LLocal {
+			a.frameMapIf(old.S, and(changes, not(eq(old.S, "0"))), st, *rc, ins.Pos())
+		}
+		st.mdom[mk] = c.Define("MD", arrSort("Int", arrSort(ks, "Bool")), ite(changes, store(d, tgt, nd), d))
+		if vs != "Unit" {
+			st.mval[mk] = c.Define("MV", arrSort("Int", arrSort(ks, vs)), ite(changes, store(v, tgt, nvv), v))
+		}
+		st.mlen = c.Define("ML", arrSort("Int", "Int"), ite(changes, store(l, tgt, nl), l))
+		st.alloc = c.Define("alloc", "Int", ite(and(changes, eq(nm, fresh)), fresh, st.alloc))
+		res := scalar(pt, ite(eq(kind, "0"), old.S, nm))
+		a.storeCond(ins, p, x.nameVal(name+"_tgt", res), st, *rc, not(eq(kind, "0")))
+	default:
+		unsup("json.Unmarshal into %s", typeStr(pt))
+	}
+	err := c.Fresh(name+"_err", "Int")
+	c.Assume(eq(eq(err, "0"), app(">=", kind, "2")))
 	return scalar(errT, err)
 }
 
 // storeCond stores v through p (frame obligation only when cond holds).
 func (a *Activation) storeCond(ins ssa.Instruction, p Val, v Val, st *State, rc string, cond string) {
 	a.store(ins, p, v, st, and(rc, cond), ins.Pos())
+}
+
+func (x *Exec) jsonValSort(v Val) string {
+	if v.K == KUnit {
+		x.ctx.DeclSort("Unit")
+		return "Unit"
+	}
+	return x.ctx.sortOf(v.T)
 }
